@@ -241,6 +241,16 @@ def mRespWrap : Mod :=
 /-- KnownResponseWrapperPayload: the payload `Option<Item>` of a response variant, `Item` being Serialize-only (client) -/
 theorem cex_digest_response_wrapper : judgeWF mRespWrap = ⟨false, ["KnownResponseWrapperPayload"]⟩ := by decide
 
+def mSerdeAs : Mod :=
+  { mode := "client-mod".toList, schemas := [],
+    items := [{ file := "types".toList, kind := "struct".toList, name := "OpRequestQuery".toList, vis := "pub".toList, ser := true, serdeAs := true,
+                fields := [{ name := "ids".toList, refs := [], sep := true, sepStr := true, opt := false, serdeAsAttr := true, asOpt := true }] }],
+    imports := [("types".toList, ["Serialize".toList])], mentions := [] }
+
+/-- attribute / type agreement: `#[serde_as(as = "Option<..>")]` on a non-Option member is a violation WITHOUT a class
+(today's generator never emits it; a change that does is reported as a VIOLATION even before rustc runs) -/
+theorem serde_as_option_mismatch_unlisted : judgeWF mSerdeAs = ⟨false, []⟩ := by decide
+
 def mHeader : Mod :=
   { mode := "types".toList, schemas := [],
     items := [{ file := "types".toList, kind := "struct".toList, name := "OpRequestHeader".toList, vis := "pub".toList,
